@@ -250,6 +250,42 @@ fn check_mixed_histories(acc: &mut Acc, rank: u64, input: &[u8], po: &PO, src: S
     acc.outcome(&base.iter().filter(|r| !r.is_err()).count());
 }
 
+fn check_entry_points(acc: &mut Acc, rank: u64, input: &[u8], pcs: &[PO]) {
+    use crate::outcome::{norm, Outcome};
+    use crate::util::guard;
+    let dn = |r: Result<Result<lexpr::Datum, lexpr::parse::Error>, String>| -> Outcome { norm(r.map(|x| x.map(|d| d.value().clone()))) };
+    let text = std::str::from_utf8(input).ok();
+    let mut pairs: Vec<(String, Outcome, Outcome)> = Vec::new();
+    pairs.push(("from_slice".into(), dn(guard(|| lexpr::datum::from_slice(input))), norm(guard(|| lexpr::parse::from_slice(input)))));
+    pairs.push(("from_slice_elisp".into(), dn(guard(|| lexpr::datum::from_slice_elisp(input))), norm(guard(|| lexpr::parse::from_slice_elisp(input)))));
+    pairs.push(("from_reader".into(), dn(guard(|| lexpr::datum::from_reader(input))), norm(guard(|| lexpr::parse::from_reader(input)))));
+    pairs.push(("from_reader_elisp".into(), dn(guard(|| lexpr::datum::from_reader_elisp(input))), norm(guard(|| lexpr::parse::from_reader_elisp(input)))));
+    if let Some(t) = text {
+        pairs.push(("from_str".into(), dn(guard(|| lexpr::datum::from_str(t))), norm(guard(|| lexpr::parse::from_str(t)))));
+        pairs.push(("from_str_elisp".into(), dn(guard(|| lexpr::datum::from_str_elisp(t))), norm(guard(|| lexpr::parse::from_str_elisp(t)))));
+    }
+    for po in pcs {
+        pairs.push((format!("from_slice_custom[{}]", po.index()), dn(guard(|| lexpr::datum::from_slice_custom(input, po.to_lexpr()))), norm(guard(|| lexpr::parse::from_slice_custom(input, po.to_lexpr())))));
+        pairs.push((format!("from_reader_custom[{}]", po.index()), dn(guard(|| lexpr::datum::from_reader_custom(input, po.to_lexpr()))), norm(guard(|| lexpr::parse::from_reader_custom(input, po.to_lexpr())))));
+        if let Some(t) = text {
+            pairs.push((format!("from_str_custom[{}]", po.index()), dn(guard(|| lexpr::datum::from_str_custom(t, po.to_lexpr()))), norm(guard(|| lexpr::parse::from_str_custom(t, po.to_lexpr())))));
+        }
+    }
+    for (name, d, v) in pairs {
+        acc.evals += 1;
+        acc.nontrivial += 1;
+        acc.outcome(&(d.is_ok(), v.is_ok()));
+        if matches!(d, Outcome::Panic(_)) || matches!(v, Outcome::Panic(_)) {
+            continue; // totality is C03's business
+        }
+        if d != v {
+            let base = name.split('[').next().unwrap_or("").to_string();
+            let h = hex(input);
+            acc.violation("entry-points", "entry-points-disagree", &format!("entry-points-disagree:{}", base), rank, format!("entry={} input={:?}", name, trunc(&show_bytes(input), 120)), format!("datum::{} gives {}, parse::{} gives {}", name, d.short(), name, v.short()), || json!({"input_hex": h, "po": 0, "entry_points": true}));
+        }
+    }
+}
+
 fn stream_pool() -> Vec<&'static [u8]> {
     vec![b"a", b"(a b)", b"(a . b)", b"#(1 2)", b"\"s\"", b"#\\x", b"1.5", b"'q", b"#:k", b"()", b"[x]", b"#u8(1)", b")", b"(a", b"#", b"1x", b"\"\\q\"", b"(a . b c)", b"#(a]", b"\xce\xbb", b"\xff", b"nil", b"?a"]
 }
@@ -258,6 +294,7 @@ pub fn replay(sub: &str, case: &J, acc: &mut Acc) {
     let input = unhex(case["input_hex"].as_str().unwrap_or(""));
     let po = PO::from_index(case["po"].as_u64().unwrap_or(0));
     match sub {
+        "entry-points" => check_entry_points(acc, 0, &input, &[PO::default_(), PO::elisp()]),
         "accessors" | "accessors-alphabet" => check_accessors(acc, sub, 0, &input, &po),
         "mixed-histories" => {
             let src = match case["src"].as_str() {
@@ -335,6 +372,19 @@ pub fn run(ctx: &Ctx) -> Report {
             };
             acc.sample(rank, || format!("{:?}", trunc(&show_bytes(input), 60)));
             check_loops(acc, "loops-streams", rank, input, &po);
+        });
+        rep.absorb(sub, accs);
+    }
+    if ctx.want("entry-points") {
+        // the nine datum::from_* functions against their lexpr::parse::from_* twins (seed C10-g3:
+        // one entry point built with the wrong option set)
+        let pcs = [PO::default_(), PO::elisp(), pos[(pos.len() - 1).min(7)]];
+        let total = corpus.len() as u64;
+        let sub = Sub::new("entry-points", "every datum::from_{str,slice,reader}{,_elisp,_custom} entry point against the lexpr::parse function of the same name on every corpus text (custom: default, Emacs Lisp and one corner option set): same value, or the same error with the same location; non-trivial = every comparison", &format!("{} texts x 15 entry-point pairs", corpus.len()));
+        let accs = par_ranks(total, |rank, acc| {
+            let input: &[u8] = &corpus[rank as usize];
+            acc.sample(rank, || format!("{:?}", trunc(&show_bytes(input), 60)));
+            check_entry_points(acc, rank, input, &pcs);
         });
         rep.absorb(sub, accs);
     }
